@@ -12,6 +12,8 @@ EXPLANATION = (
     "Bind rows of the table; the request handed to the application carries the frame's id and payload; (R3) "
     "exactly one reply frame per request: a reply emitted from Drop must be dominated by a 'not yet replied' "
     "edge on state that reply() writes (or reply must consume self).")
+EXPLANATION_ADDED = "R1 also requires the requester's queue/oneshot failures to be mapped to Closed; R2 distinguishes an awaited hand-off to the bind queue from try_send; (R4) the bind queue is sized by bind_buffer_size."
+EXPLANATION = EXPLANATION + " Added while testing against seeded changes: " + EXPLANATION_ADDED
 ASSUMPTIONS = ["tokio oneshot delivers at most one value"]
 NOT_DECIDED = "independence of concurrent requests under all interleavings"
 BR = "penguin_mux::BindRequest"
